@@ -104,8 +104,16 @@ async def spawn_daemons(
         return []
     if memory.object_gone:
         return []
+    delays: list[float] = []
     for handler in handlers:
-        if handler.id not in daemons:
+        if handler.id in daemons:
+            # The previous instance is still being stopped (after a filter mismatch or an operator pause)
+            # while the handler matches again. It cannot be un-stopped, and there must never be two
+            # instances: come back later to start a new one. Nothing else would re-visit the object.
+            if daemons[handler.id].stopper.is_set():
+                polling = getattr(handler, 'cancellation_polling', None)
+                delays.append(polling or settings.background.cancellation_polling)
+        else:
             stopper = stoppers.DaemonStopper()
             live_body = memory.live_fresh_body
             daemon_cause = causes.DaemonCause(
@@ -130,7 +138,7 @@ async def spawn_daemons(
                 ), name=f'runner of {handler.id}'),  # sometimes, daemons; sometimes, timers.
             )
             daemons[handler.id] = daemon
-    return []
+    return delays
 
 
 async def match_daemons(
@@ -144,17 +152,25 @@ async def match_daemons(
 
     Stopping can take a few iterations, same as :func:`stop_daemons` would do.
     """
+    # A daemon that was once asked to stop is escorted to its end even if the object matches again
+    # meanwhile: the stop flag cannot be taken back, and the daemon is re-spawned once it is gone.
     matching_daemon_ids = {handler.id for handler in handlers}
     mismatching_daemons = {
         daemon.handler.id: daemon
         for daemon in daemons.values()
         if daemon.handler.id not in matching_daemon_ids
+        or daemon.stopper.is_set(reason=stoppers.DaemonStoppingReason.FILTERS_MISMATCH)
     }
-    delays = await stop_daemons(
+    delays = list(await stop_daemons(
         settings=settings,
         daemons=mismatching_daemons,
         reason=stoppers.DaemonStoppingReason.FILTERS_MISMATCH,
-    )
+    ))
+
+    # Those that have ended right now while they match again were skipped by the spawning
+    # of this cycle (they were still there): come back at once to start them anew.
+    if any(id in matching_daemon_ids and id not in daemons for id in mismatching_daemons):
+        delays.append(0)
     return delays
 
 
